@@ -1458,6 +1458,25 @@ func perturb(c *Ctx, env *zkEnv, s *zkSys, base, second, replay, other zkCase) [
 			p[k] = v
 			add(cls, "proof."+k+" changed", base.prefix, base.pub, p)
 		}
+		// an iteration-indexed verifier (zkprm, zkmod: 80 rounds) must enforce EVERY round, the boundary ones included
+		// (seed C10g: the result of the last round was computed and never read): the first and the last element of a
+		// list field changed / taken from a second valid proof of the same statement, everything else untouched
+		if base.prf[k]["k"] == "list" {
+			l := base.prf[k]["v"].([]zv)
+			l2, _ := second.prf[k]["v"].([]zv)
+			for _, i := range []int{0, len(l) - 1} {
+				if x, ok := tweak(c, l[i], env); ok {
+					p := cloneRec(base.prf)
+					p[k]["v"].([]zv)[i] = x
+					add(cls, fmt.Sprintf("proof.%s[%d] changed", k, i), base.prefix, base.pub, p)
+				}
+				if len(l2) == len(l) {
+					p := cloneRec(base.prf)
+					p[k]["v"].([]zv)[i] = cloneV(l2[i])
+					add("splice", fmt.Sprintf("proof.%s[%d] taken from a second valid proof of the same statement", k, i), base.prefix, base.pub, p)
+				}
+			}
+		}
 		// splice from a second valid proof of the SAME statement and from a proof of ANOTHER statement
 		p := cloneRec(base.prf)
 		p[k] = cloneV(second.prf[k])
